@@ -61,7 +61,9 @@ GenEmit == GEN = 1 => PrintT(ToJson([s |-> s]))
 \* (a panic, a crash) which no behaviour of the matcher explains
 TraceInit == /\ t \in 1..Len(Cases) /\ s = Cases[t].s /\ i = 0 /\ stack = <<>> /\ result = <<>>
              /\ verdict = "run"
-Expected(a) == IF result[1] = "accept" THEN a[2] = "accept"
+\* (the in-place interpreter does not parse: whatever the text, it must run or return an error, never panic)
+Expected(a) == IF a[1] = "inplace" THEN a[2] \in {"ran", "error-result"}
+               ELSE IF result[1] = "accept" THEN a[2] = "accept"
                ELSE a[2] = result[1] /\ a[3] = result[2]
 Judge ==
   /\ verdict = "run" /\ result # <<>>
